@@ -132,7 +132,16 @@ def main():
             results.append({"error": "no such case " + job["case"]})
             continue
         try:
-            results.append(eval_case(case, job["prims"], raw=bool(job.get("raw"))))
+            r1 = eval_case(case, job["prims"], raw=bool(job.get("raw")))
+            if job.get("repeat") and not r1.get("skip"):
+                r2 = eval_case(case, job["prims"], raw=bool(job.get("raw")))
+                later = [k for k, v in r2.get("checks", {}).items() if v is False and r1.get("checks", {}).get(k)]
+                if later:
+                    for k in later:
+                        r1["checks"][k] = False
+                    r1["second_call_in_the_same_process"] = dict(outcome=r2.get("outcome"), result=r2.get("result"),
+                                                                 fails=later)
+            results.append(r1)
         except Exception as ex:  # pragma: no cover
             results.append({"error": f"{type(ex).__name__}: {ex}"})
     json.dump(results, sys.stdout)
